@@ -214,19 +214,16 @@ static QList<QString> makeOffer(const Sym &s)
     return off;
 }
 
-// the oracle
-static void checkChoice(const Sym &s, const std::optional<SaslMechanism> &res)
+// the oracle (split into functions with <= 3 loops each: the driver's per-function loop bounds cover loops .0-.2)
+static bool anyPermitted(const Sym &s)
 {
     bool any = false;
     for (unsigned k = 0; k < VP_NOFF; k++)
         if (k < s.nOff && permitted(s, s.offered[k])) any = true;
-
-    if (!res) {
-        vp_assert(!any, "C05 a permitted mechanism is offered but none was chosen");
-        return;
-    }
-    vp_assert(any, "C05 a mechanism was chosen although nothing qualifies (must be a mechanism mismatch)");
-    Desc r = descOfResult(*res);
+    return any;
+}
+static void checkMembership(const Sym &s, Desc r)
+{
     // the chosen mechanism is one of the offered names, and that name is permitted
     bool found = false;
     for (unsigned k = 0; k < VP_NOFF; k++)
@@ -236,18 +233,30 @@ static void checkChoice(const Sym &s, const std::optional<SaslMechanism> &res)
             vp_assert(usable(s, r), "C05 mechanism chosen that is not usable with the stored credentials");
         }
     vp_assert(found, "C05 chosen mechanism was not offered");
+}
+static void checkStrongest(const Sym &s, Desc r)
+{
+    // no permitted offered mechanism is strictly stronger (order of the property statement)
+    for (unsigned k = 0; k < VP_NOFF; k++)
+        if (k < s.nOff && permitted(s, s.offered[k])) {
+            Desc o = descOf(s.offered[k]);
+            if (ranked(o) && ranked(r)) vp_assert(!stronger(o, r), "C05 a stronger permitted mechanism was offered");
+        }
+}
+static void checkChoice(const Sym &s, const std::optional<SaslMechanism> &res)
+{
+    bool any = anyPermitted(s);
+    if (!res) {
+        vp_assert(!any, "C05 a permitted mechanism is offered but none was chosen");
+        return;
+    }
+    vp_assert(any, "C05 a mechanism was chosen although nothing qualifies (must be a mechanism mismatch)");
+    Desc r = descOfResult(*res);
+    checkMembership(s, r);
     // preferred wins iff it is itself offered and permitted
     bool prefOk = s.hasPreferred && offered(s, s.preferred) && permitted(s, s.preferred);
-    if (prefOk) {
-        vp_assert(sameDesc(r, descOf(s.preferred)), "C05 preferred mechanism is offered and permitted but was not used");
-    } else {
-        // strongest: no permitted offered mechanism is strictly stronger (order of the property statement)
-        for (unsigned k = 0; k < VP_NOFF; k++)
-            if (k < s.nOff && permitted(s, s.offered[k])) {
-                Desc o = descOf(s.offered[k]);
-                if (ranked(o) && ranked(r)) vp_assert(!stronger(o, r), "C05 a stronger permitted mechanism was offered");
-            }
-    }
+    if (prefOk) vp_assert(sameDesc(r, descOf(s.preferred)), "C05 preferred mechanism is offered and permitted but was not used");
+    else checkStrongest(s, r);
 }
 
 // ---- lemma: the REAL parser on every table row (symbolic row index); group `parse` (no cut) -------------------------
